@@ -10,6 +10,8 @@ mod vc;
 mod vm;
 #[path = "../validate_obs.rs"]
 mod vo;
+#[path = "../validate_abs.rs"]
+mod va;
 use vc::*;
 use verif_harness::*;
 use vfx::*;
@@ -59,12 +61,22 @@ fn main() {
         }
         let trail = s.trail.join("+");
         let r = materialize(&s, |tx, metx, utxos, env| {
-            let o = observe(&tx, metx, utxos, env, &s.cs);
-            (fam_name(&tx), o)
+            let o = observe(&tx, metx, utxos, env, &s.cs, s.counts);
+            let term = if args.oracle_only { String::new() } else {
+                let bw: Vec<pallas_primitives::byron::Twit> = if let AnyTx::Byron(p) = &tx { p.witness.iter().cloned().collect() } else { vec![] };
+                format!("({},{},{},{},{},{})", coq_bool(profile != "release"), va::tx_term(&tx, metx, utxos, env, &o), va::utxo_term(utxos, &bw), va::env_term(env),
+                        o.e2e.coq(), coq_list(&o.checks, |c| c.1.coq()))
+            };
+            (fam_name(&tx), o, term)
         });
-        let Some((fam, o)) = r else { n_undecodable += 1; continue };
+        let Some((fam, o, term)) = r else { n_undecodable += 1; continue };
         n_run += 1;
         if o.e2e == Oc::Ok { n_accept += 1 }
+        if !args.oracle_only {
+            let tag = if it < base.len() { format!("{}:fixture", fam) } else if it < nfix { format!("{}:corpus", fam) }
+                      else { format!("{}:{}", fam, match &o.e2e { Oc::Ok => "mutant-accepted".to_string(), Oc::Err(c) => format!("mutant-err{}", c / 100 * 100), Oc::Panic(_) => "mutant-panic".to_string() }) };
+            emit_case(&tag, &term);
+        }
         let mut any = false;
         for (cn, c) in &o.checks {
             if let Oc::Panic(m) = c {
